@@ -745,6 +745,15 @@ func kindAssertedAt(p *core.Prog, fn *core.Func, rn *core.GNode, isKind func(*ty
 	info := fn.Pkg.TypesInfo
 	g := p.Graph(fn)
 	why := ""
+	// `return ..., meta.AssertIndexKind(kind)`: the error handed back is the assertion's own verdict
+	if res := returnResults(rn); len(res) > 0 {
+		if c, isCall := core.Unparen(res[len(res)-1]).(*ast.CallExpr); isCall && len(c.Args) == 1 && core.CalleeName(info, c) == "indexes.(*Metadata).AssertIndexKind" {
+			if isKind(info, c.Args[0]) {
+				return true, ""
+			}
+			why = "asserts kind " + core.ExprStr(c.Args[0])
+		}
+	}
 	for _, d := range g.Dominators(rn) {
 		if d.Kind != core.KEdge || d.Ast == nil {
 			continue
